@@ -1,5 +1,5 @@
 """C08  Instruction encodings agree with the architecture reference  (RISC-V: RV32IM + Zicsr + C; ARM: A32 and Thumb;
-x86-64 subset; MIPS32; MSP430 - the last three ISAs plus Thumb live in props/_x86.py and props/_c08_<isa>.py).
+x86-64 subset; MIPS32; MSP430; AVR; or1k; MicroBlaze; m68k; Xtensa - x86 lives in props/_x86.py, the others in props/_c08_<isa>.py).
 
 RISC-V: for every instruction class of ppci's riscv and riscv:rvc ISA objects that has a syntax and an encoding,
 the instruction is built with SYMBOLIC operands (register objects whose number is symbolic, symbolic
@@ -54,7 +54,7 @@ BOUNDS["thorough"] = dict(BOUNDS["quick"])
 BOUNDS["thorough"]["immediates"] = BOUNDS["quick"]["immediates"].replace("2**33", "2**48")
 BOUNDS["thorough"]["branch/jump distance"] = BOUNDS["quick"]["branch/jump distance"].replace("twice", "16 times")
 BOUNDS["thorough"]["arm register lists (push/pop)"] = "every non-empty register list (16 register objects with symbolic numbers) and every single register"
-OUTSIDE = ["avr, m68k, or1k, xtensa, microblaze (no reference decoder here); x86_64 beyond the stated subset",
+OUTSIDE = ["x86_64 beyond the stated subset; floating point / coprocessor classes of every ISA",
            "F/D floating-point instruction classes (rvf/rvfx modules); arm VFP / NEON / coprocessor classes (mcr, mrc: listed as unclaimed in evidence)",
            "pseudo-instructions whose expansion needs relocations (La, Labelrel; arm `ldr rt, =label`), data directives, and the rvc selection helpers "
            "Andv, Lwv, ... (not registered in the ISA object); li rd, imm IS covered (rendered sequence executed)",
